@@ -153,6 +153,9 @@ pub fn main() {
         }
         return;
     }
+    if let Some(rc) = fzrun::replay(&cfg) {
+        std::process::exit(rc);
+    }
     let code = match prop.as_str() {
         "C01" => c01::run(&cfg),
         "C02" => c02::run(&cfg),
